@@ -458,6 +458,8 @@ def rule_h(ctx: Ctx):
 
 
 def run(ctx: Ctx):
+    from .C01 import instance_sized_state
+    instance_sized_state(ctx, EnvA(ctx.repo, T.ALL_ENVS["SMTWTPEnv"], "SMTWTPEnv"), "C07.i")
     rule_h(ctx)
     rule_g(ctx)
     rule_a(ctx)
